@@ -1,19 +1,28 @@
 package ttlv
 
 import (
+	"encoding/binary"
 	"io"
+	"math"
 	"slices"
 )
 
 // computeNeededBytes calculates the number of bytes needed to process a TTLV-encoded buffer.
 // If the buffer length is less than 8 bytes, it returns 8 as the minimum required size.
-// Otherwise, it returns 8 plus the padded length of the TTLV value as determined by ttlvReader.
+// Otherwise, it returns 8 plus the padded length announced by the TTLV header.
+//
+// The announced length is an unsigned 32-bit value: the size is computed in 64 bits so that it cannot
+// wrap around where int is 32 bits wide. A size that does not fit an int is reported as -1.
 func computeNeededBytes(buf []byte) int {
 	if len(buf) < 8 {
 		return 8
 	}
-	dec := ttlvReader{buf: buf}
-	return 8 + dec.paddedLen()
+	l := uint64(binary.BigEndian.Uint32(buf[4:8]))
+	need := 8 + (l+7)/8*8
+	if need > math.MaxInt {
+		return -1
+	}
+	return int(need)
 }
 
 // Stream is a helper type to wrap io.ReadWrite stream to serialize and deserialize
@@ -72,6 +81,9 @@ func (s *Stream) Recv(msg any) error {
 		}
 		read += n
 		need = computeNeededBytes(buf[:read])
+		if need < 0 {
+			return Errorf("Message is too big. The announced size cannot be addressed on this platform")
+		}
 		if s.max > 0 && need > s.max {
 			return Errorf("Message is too big. Max allowed size is %d bytes", s.max)
 		}
